@@ -6,6 +6,7 @@ CONSTANTS
   SessionLoss = TRUE
   ClearAfterRequeue = TRUE
   KeepOldWaiter = TRUE
+  CancelOnPublish = TRUE
   SilentLoss = TRUE
   LossyWrites = FALSE
 INVARIANT Qos2AtMostOnce
